@@ -20,10 +20,10 @@ import (
 // arrives while the Close of that remote's connection is under way.
 
 type c11sScenario struct {
-	Remotes int     // 1..2, each with an accepted connection
-	Close   []int   // per remote: Close calls on its connection (0..2)
-	Send    []int   // per remote: datagrams sent during the controlled phase (0..3)
-	Accept  int     // Accept tasks (0..2)
+	Remotes int   // 1..2, each with an accepted connection
+	Close   []int // per remote: Close calls on its connection (0..2)
+	Send    []int // per remote: datagrams sent during the controlled phase (0..3)
+	Accept  int   // Accept tasks (0..2)
 }
 
 func (sc c11sScenario) String() string {
